@@ -259,6 +259,9 @@ pub fn run(thorough: bool, seed: u64, driver: &str, rep: &mut Report) {
             rep.count("trees_with_concatenation_ambiguous_taxa");
         } else if ti % 4 == 3 && spice_names(&mut rng, &mut t, 30) > 0 {
             rep.count("trees_with_markup_like_labels");
+            // a name that starts with a dash is an OPTION to any command line (exit status 2 from the argument parser, by
+            // convention — not a question the property asks): such names are kept away from the argument lists
+            t.for_each_mut(&mut |x, _, _| if let Some(n) = x.name.as_mut() { if n.starts_with('-') { n.insert(0, 'x'); } }, true, 0);
         }
         let text = t.newick();
         let file = tmp(&dir, &mut k, &text);
